@@ -79,14 +79,14 @@ type Msg struct{ ID int }
 // ---------------------------------------------------------------- per-behaviour harness state
 
 type harness struct {
-	sys    actor.ActorSystem
-	w      *vtrace.Writer
-	s      *sched.Sched
-	scn    *scenario
-	sfx    string
-	ctx    context.Context
-	tree   any
-	dw, ug *actor.PID
+	sys     actor.ActorSystem
+	w       *vtrace.Writer
+	s       *sched.Sched
+	scn     *scenario
+	sfx     string
+	ctx     context.Context
+	tree    any
+	dw, ug  *actor.PID
 	dwSched any
 
 	mu      sync.Mutex
@@ -248,7 +248,12 @@ func (a *tact) preStart() {
 func (a *tact) postStop() {
 	h := a.h
 	h.yield("ps.enter", 0, 0)
-	h.emit("psenter", func(e map[string]any) { e["n"] = a.name; e["i"] = a.inst; e["k"] = a.k; e["c"] = int(sched.Gid() % 1000000) })
+	h.emit("psenter", func(e map[string]any) {
+		e["n"] = a.name
+		e["i"] = a.inst
+		e["k"] = a.k
+		e["c"] = int(sched.Gid() % 1000000)
+	})
 	for i := 0; i < h.spin; i++ {
 		runtime.Gosched()
 	}
@@ -291,6 +296,12 @@ func (a *tact) Receive(ctx *actor.ReceiveContext) {
 		a.message(m)
 	}
 }
+
+type plain struct{}
+
+func (*plain) PreStart(*actor.Context) error { return nil }
+func (*plain) Receive(*actor.ReceiveContext) {}
+func (*plain) PostStop(*actor.Context) error { return nil }
 
 // ---------------------------------------------------------------- test grain
 
@@ -342,7 +353,14 @@ func (h *harness) runProg(t string, self *actor.PID) {
 
 func (h *harness) execOp(t string, o opT, self *actor.PID) {
 	ctx := h.ctx
-	call := func() { h.emit("call", func(e map[string]any) { e["t"] = t; e["op"] = o.Op; e["n"] = o.N; e["w"] = o.W }) }
+	defer func() {
+		if r := recover(); r != nil {
+			h.emit("panic", func(e map[string]any) { e["t"] = t; e["op"] = o.Op; e["n"] = o.N; e["x"] = fmt.Sprint(r) })
+		}
+	}()
+	call := func() {
+		h.emit("call", func(e map[string]any) { e["t"] = t; e["op"] = o.Op; e["n"] = o.N; e["w"] = o.W })
+	}
 	ret := func(err error, pid *actor.PID) {
 		h.emit("ret", func(e map[string]any) {
 			e["t"] = t
@@ -409,12 +427,24 @@ func (h *harness) execOp(t string, o opT, self *actor.PID) {
 		id := int(h.msgid.Add(1))
 		h.emit("call", func(e map[string]any) { e["t"] = t; e["op"] = o.Op; e["n"] = o.N; e["c"] = id })
 		err := actor.Tell(ctx, h.handle[o.N], &Msg{ID: id})
-		h.emit("ret", func(e map[string]any) { e["t"] = t; e["op"] = o.Op; e["n"] = o.N; e["c"] = id; e["ok"] = b2i(err == nil) })
+		h.emit("ret", func(e map[string]any) {
+			e["t"] = t
+			e["op"] = o.Op
+			e["n"] = o.N
+			e["c"] = id
+			e["ok"] = b2i(err == nil)
+		})
 	case "tellg":
 		id := int(h.msgid.Add(1))
 		h.emit("call", func(e map[string]any) { e["t"] = t; e["op"] = o.Op; e["n"] = o.N; e["c"] = id })
 		err := h.sys.TellGrain(ctx, h.grains[o.N], &Msg{ID: id})
-		h.emit("ret", func(e map[string]any) { e["t"] = t; e["op"] = o.Op; e["n"] = o.N; e["c"] = id; e["ok"] = b2i(err == nil) })
+		h.emit("ret", func(e map[string]any) {
+			e["t"] = t
+			e["op"] = o.Op
+			e["n"] = o.N
+			e["c"] = id
+			e["ok"] = b2i(err == nil)
+		})
 	case "sysstop":
 		call()
 		err := h.sys.Stop(ctx)
@@ -558,7 +588,36 @@ func (h *harness) end(alive bool) {
 		}
 		st = append(st, map[string]any{"n": a.name, "i": a.inst, "run": run, "bound": b2i(a.pid != nil)})
 	}
-	h.emit("End", func(e map[string]any) { e["ok"] = b2i(q); e["c"] = num; e["d"] = d; e["x"] = ""; e["st"] = st; e["run"] = b2i(alive) })
+	// what the name index resolves at quiescence
+	res := []any{}
+	if alive {
+		for _, n := range h.scn.Names {
+			if pid, err := h.sys.ActorOf(h.ctx, h.real(n)); err == nil && pid != nil {
+				res = append(res, map[string]any{"n": n, "i": h.instOf(pid), "run": b2i(pid.IsRunning())})
+			}
+		}
+		for name := range actor.VerifNamesIndex(h.tree, false) {
+			if m := h.model(name); m != "" && m != "u" && m != "dw" && m != "r" {
+				found := false
+				for _, x := range d {
+					if x.(map[string]any)["n"] == m {
+						found = true
+					}
+				}
+				if !found {
+					res = append(res, map[string]any{"n": m, "i": 0, "run": 0})
+				}
+			}
+		}
+	}
+	h.emit("End", func(e map[string]any) {
+		e["ok"] = b2i(q)
+		e["c"] = num
+		e["d"] = d
+		e["st"] = st
+		e["run"] = b2i(alive)
+		e["res"] = res
+	})
 	h.quiet.Store(true)
 	if alive {
 		for _, a := range insts {
@@ -566,12 +625,54 @@ func (h *harness) end(alive bool) {
 				_ = a.pid.Shutdown(h.ctx)
 			}
 		}
+		h.waitQuiescent(2 * time.Second)
 		for _, n := range h.scn.Names {
-			_ = h.sys.Kill(h.ctx, h.real(n))
+			func() {
+				defer func() { _ = recover() }() // Kill can hit a node the death watch is just clearing (finding NilPIDAfterConcurrentDelete)
+				_ = h.sys.Kill(h.ctx, h.real(n))
+			}()
 		}
 		h.waitQuiescent(2 * time.Second)
 	}
 }
+
+// emitStep logs one executed model action with the projection of the real system after it (conformance).
+func (h *harness) emitStep(x step, base int) {
+	if !h.sys.Running() {
+		h.emit("step", func(e map[string]any) {
+			e["a"] = x.A
+			e["args"] = x.Args
+			e["c"] = 0
+			e["ps"] = []any{}
+			e["x"] = "dead"
+		})
+		return
+	}
+	ps := []any{}
+	h.mu.Lock()
+	insts := append([]*tact(nil), h.insts...)
+	h.mu.Unlock()
+	for _, a := range insts {
+		if a.pid == nil {
+			// not bound yet: PreStart has run, attachAndPublish has not: it is running
+			ps = append(ps, map[string]any{"n": a.name, "i": a.inst, "s": "running"})
+			continue
+		}
+		run, stopping, _ := actor.VerifStateOf(a.pid)
+		s := "stopped"
+		if run && stopping {
+			s = "stopping"
+		} else if run {
+			s = "running"
+		}
+		ps = append(ps, map[string]any{"n": a.name, "i": a.inst, "s": s})
+	}
+	d := h.dump(false)
+	c := int(h.sys.NumActors()) - base
+	h.emit("step", func(e map[string]any) { e["a"] = x.A; e["args"] = x.Args; e["c"] = c; e["d"] = d; e["ps"] = ps })
+}
+
+var stepsOff = os.Getenv("VERIF_NOSTEPS") != ""
 
 // ---------------------------------------------------------------- replay
 
@@ -1070,6 +1171,7 @@ func replayOne(sys actor.ActorSystem, w *vtrace.Writer, scn *scenario, b behavio
 		sys = newSystem()
 	}
 	h := newHarness(sys, w, scn, "-"+strconv.Itoa(bi))
+	base := int(sys.NumActors())
 	w.Raw(map[string]any{"ev": "New", "t": "", "op": "", "n": "", "w": "", "i": 0, "k": 0, "ok": 0, "c": int(sys.NumActors()), "run": 0, "d": []any{}, "x": b.Scn,
 		"names": scn.Names, "parent": scn.Parent, "wit": append([]string{}, b.Wit...), "watch": watchList(scn)})
 	h.setup()
@@ -1128,6 +1230,9 @@ func replayOne(sys actor.ActorSystem, w *vtrace.Writer, scn *scenario, b behavio
 			break
 		}
 		st.Steps++
+		if !stepsOff {
+			h.emitStep(x, base)
+		}
 	}
 	if r.drift != "" {
 		st.Drift++
@@ -1138,10 +1243,14 @@ func replayOne(sys actor.ActorSystem, w *vtrace.Writer, scn *scenario, b behavio
 		h.emit("Drift", func(e map[string]any) { e["x"] = r.drift })
 	}
 	s.FreeRun()
-	if !s.Join(6 * time.Second) {
-		st.NotQ++
-	}
 	alive := sys.Running()
+	if alive {
+		if !s.Join(6 * time.Second) {
+			st.NotQ++
+		}
+	} else {
+		s.Join(100 * time.Millisecond) // workers parked when the dispatcher was stopped never reach turn.end
+	}
 	h.end(alive)
 	s.Close()
 	if own && alive {
@@ -1327,6 +1436,46 @@ func main() {
 		if shared != nil {
 			_ = shared.Stop(context.Background())
 		}
+	case "nilrace":
+		// tree nilrace <rounds>: Kill / ActorOf by name racing the death-watch cleanup of the same actor (free-running)
+		rounds, _ := strconv.Atoi(os.Args[2])
+		sys := newSystem()
+		ctx := context.Background()
+		panics := map[string]int{}
+		var mu sync.Mutex
+		for i := 0; i < rounds; i++ {
+			name := "n" + strconv.Itoa(i)
+			pid, err := sys.Spawn(ctx, name, &plain{}, actor.WithLongLived())
+			if err != nil {
+				fatal(err)
+			}
+			var wg sync.WaitGroup
+			probe := func(what string, f func()) {
+				wg.Add(1)
+				go func() {
+					defer wg.Done()
+					defer func() {
+						if r := recover(); r != nil {
+							mu.Lock()
+							panics[what+": "+fmt.Sprint(r)]++
+							mu.Unlock()
+						}
+					}()
+					for k := 0; k < 400; k++ {
+						f()
+					}
+				}()
+			}
+			probe("ActorOf", func() { _, _ = sys.ActorOf(ctx, name) })
+			probe("Kill", func() { _ = sys.Kill(ctx, name) })
+			probe("ActorExists", func() { _, _ = sys.ActorExists(ctx, name) })
+			_ = pid.Shutdown(ctx)
+			wg.Wait()
+		}
+		_ = sys.Stop(ctx)
+		out, _ := json.Marshal(map[string]any{"rounds": rounds, "panics": panics})
+		fmt.Println(string(out))
+		return
 	default:
 		fatal("unknown subcommand")
 	}
